@@ -14,7 +14,7 @@ def load(paths):
     for path in paths:
         cur = None
         for l in open(path):
-            m = re.match(r'^(C\d\d-[A-F]) == (C\d\d) exit=(\d+): (\d+) violation', l)
+            m = re.match(r'^(C\d\d-[A-H]) == (C\d\d) exit=(\d+): (\d+) violation', l)
             if m:
                 cur = (m.group(1), m.group(2)); res[cur] = int(m.group(3)); sigs[cur] = []
             elif l.startswith('    violation sig=') and cur:
@@ -25,7 +25,7 @@ def short(seed):
     for l in open('/verif/seeded/%s/notes.md' % seed).read().strip().split('\n'):
         l = l.strip('# ').strip()
         if l and not l.lower().startswith('notes'):
-            l = re.sub(r'^C\d\d\s*/\s*(seeded\s+)?(change|defect)?\s*[A-F]\s*[—:-]+\s*', '', l, flags=re.I)
+            l = re.sub(r'^C\d\d\s*/\s*(seeded\s+)?(change|defect)?\s*[A-H]\s*[—:-]+\s*', '', l, flags=re.I)
             return l[:170]
     return ''
 
@@ -41,7 +41,7 @@ def main():
             final.append(a)
     fres, _ = load(first)
     res, sigs = load(final)
-    seeds = sorted(d for d in os.listdir('/verif/seeded') if os.path.isdir('/verif/seeded/' + d) and re.match(r'^C\d\d-[A-F]$', d))
+    seeds = sorted(d for d in os.listdir('/verif/seeded') if os.path.isdir('/verif/seeded/' + d) and re.match(r'^C\d\d-[A-H]$', d))
     rows = []
     for s in seeds:
         mp = '/verif/seeded/%s/meta.json' % s
@@ -60,7 +60,7 @@ def main():
     with open('/verif/seeded/README.md', 'w') as f:
         f.write('# Independently seeded property-breaking changes\n\n'
                 'Written by fresh sub-agents that saw only the text of one property and a scratch worktree of the library '
-                '(round 1: seeds A, B; round 2: seeds C, D, asked to be subtler and to use other sites than round 1; round 3: seeds E, F, asked for sites and trigger kinds the earlier rounds had not used). Seeds that a later `fix:` commit neutralised are under `_moot/`. '
+                '(round 1: seeds A, B; round 2: seeds C, D, asked to be subtler and to use other sites than round 1; round 3: seeds E, F, asked for sites and trigger kinds the earlier rounds had not used; round 4: seeds G, H for twelve properties, written after the cross corpus and the decorated variants had been added). Seeds that a later `fix:` commit neutralised are under `_moot/`. '
                 'Each directory holds `patch.diff`, `demo_test.go` (fails with the change, passes without; copy to the repository root as '
                 '`zz_demo_test.go` and run `go test -run TestDemo .`), the author\'s `notes.md` and `meta.json`. '
                 'Every seed keeps the repository\'s own 383 tests green (re-verified with `tools/seedverify.sh`).\n\n'
